@@ -202,6 +202,45 @@ def add_intruder(p, rng):
     return q
 
 
+def universe_intruders(run, scr, tier, payload):
+    """Every project of the bounded universes MC_Tree and MC_Core (all of it in the thorough tier, every 6th project in the
+    quick tier) with an added task of priority 1 declared last, on either resource, short or long: the dates of all other tasks
+    must be those of the project without it.  Projects come from TLC (terminal states of Sched.tla); runs are untraced."""
+    from harness import e2
+    obls = []
+    plan = [("MC_Tree", "MC_Tree.cfg" if tier == "quick" else "MC_TreeFull.cfg"), ("MC_Core", "MC_Core.cfg")]
+    for module, cfg in plan:
+        res, terms = e2.run_universe(module, cfg, timeout=6000)
+        run.add_tlc(res)
+        if res.invariant_violated or not terms:
+            raise MachineryError("universe %s: %s" % (module, res.invariant_violated or "no terminal states"))
+        stride = 6 if tier == "quick" else 1
+        jobs = []
+        for i in range(0, len(terms), stride):
+            A = terms[i]["project"]
+            base = gen.render_abstract(A)
+            jobs.append({"id": "%s-%d" % (module, i), "text": base})
+            for k, (rn, eff) in enumerate((("r", "1h"), ("q", "9h"))):
+                intr = 'task zz_intruder "zz" {\n  effort %s\n  allocate %s\n  priority 1\n}\n' % (eff, rn)
+                jobs.append({"id": "%s-%d+z%d" % (module, i, k), "text": base + intr})
+        got = e2.run_final(scr, jobs)
+        n = 0
+        for i in range(0, len(terms), stride):
+            L = got.get("%s-%d" % (module, i))
+            for k in range(2):
+                R = got.get("%s-%d+z%d" % (module, i, k))
+                if not L or not R or L.get("status") != "ok" or R.get("status") != "ok":
+                    raise MachineryError("universe project not scheduled by the implementation: %s-%d" % (module, i))
+                key = "C09-%s-u%d+z%d" % (module, i, k)
+                payload[key] = {"base_text": jobs[0]["text"] if False else gen.render_abstract(terms[i]["project"]), "intruder": k}
+                fin = lambda fs: [{"sched": f["sched"], "start": f["start"] if f["sched"] else -1, "end": f["end"] if f["sched"] else -1} for f in fs]
+                obls.append({"id": key, "left": fin(L["final"]), "right": fin(R["final"][:len(L["final"])])})
+                run.evaluated()
+                n += 1
+        run.notes.setdefault("universes", []).append({"module": module, "projects": len(range(0, len(terms), stride)), "pairs": n, "states": res.distinct})
+    return obls
+
+
 def check_c09(prop, tier, replay=None):
     run = Run("C09", tier)
     run.cov["rule"] = ("base projects (core, sub-slot, limits, teams, calendars; all priorities >= 300) x an added task with priority <= 100 declared last, "
@@ -247,6 +286,8 @@ def check_c09(prop, tier, replay=None):
                 later = [t for t in picks[picks.index(z) + 1:] if R["final"][t - 1]["sched"]]
                 if later:
                     run.violation(key + "-order", payload[key], {"why": "the strictly lowest-priority task was placed before higher-priority tasks", "picked_after_it": later[:5]})
+        if not replay:
+            obls += universe_intruders(run, scr, tier, payload)
         verdicts, res = relate.decide(obls)
         run.add_tlc(res)
         _report(run, obls, verdicts, payload, "adding a strictly lowest-priority task on which nothing depends changed other tasks")
